@@ -22,6 +22,7 @@ Section World.
   | SInfo (root : path)
   | SInfoSF (file : path) (root : option path)
   | SFlatten (root : path)
+  | SVerifyPL (root : path) (src : path) (ipats : list text)   (* verify ROOT -pl <what flatten SRC wrote> *)
   | SSet (p : path) (b : bytes)             (* write a file (new or existing) *)
   | SMkdir (p : path)
   | SDelete (p : path)
@@ -61,6 +62,16 @@ Section World.
     end.
   Definition nearest_history (t : node) (d : path) : option path := nearest_history_fuel (S (length d)) t d.
 
+  (* the packing list that `flatten` writes for the history at src (None: nothing is written, e.g. no history) *)
+  Definition packing_list_of (t : node) (src : path) : option gen :=
+    match get C t src with
+    | Some sub => match o_written (snd (flatten C cdig sub [] [])) with
+                  | [(_, doc)] => Some doc
+                  | _ => None
+                  end
+    | None => None
+    end.
+
   Definition do_step (t : node) (s : step) : node * obs :=
     match s with
     | SCreate root req no_dh dr sf ipats ifile =>
@@ -82,6 +93,7 @@ Section World.
         | None => (t, obs_exit exit_no_history)
         end
     | SFlatten root => at_root root (fun sub => flatten C cdig sub [] []) t
+    | SVerifyPL root src ipats => at_root root (fun sub => verify_pl Hb matches C sub (packing_list_of t src) ipats []) t
     | SSet p b => (alter C p (fun _ => Some (File b)) t, obs_none)
     | SMkdir p => (alter C p (fun o => match o with Some x => Some x | None => Some (Dir None []) end) t, obs_none)
     | SDelete p => (alter C p (fun _ => None) t, obs_none)
